@@ -2,6 +2,7 @@ package engine
 
 import (
 	"io"
+	"math"
 	"strconv"
 	"strings"
 )
@@ -14,14 +15,13 @@ func (f Float) number() {}
 // WriteTerm outputs the Float to an io.Writer.
 func (f Float) WriteTerm(w io.Writer, opts *WriteOptions, _ *Env) error {
 	ew := errWriter{w: w}
-	openClose := opts.left.name == atomMinus && opts.left.specifier.class() == operatorClassPrefix && f > 0
-
-	if openClose || (f < 0 && opts.left != operator{}) {
-		_, _ = ew.Write([]byte(" "))
-	}
+	negative := math.Signbit(float64(f)) // -0.0 is written with a sign, too.
+	openClose := opts.left.name == atomMinus && opts.left.specifier.class() == operatorClassPrefix && !negative
 
 	if openClose {
-		_, _ = ew.Write([]byte("("))
+		_, _ = ew.Write([]byte(" ("))
+	} else if opts.left != (operator{}) && (letterDigit(opts.left.name) || (negative && graphic(opts.left.name))) {
+		_, _ = ew.Write([]byte(" "))
 	}
 
 	s := strconv.FormatFloat(float64(f), 'g', -1, 64)
